@@ -142,6 +142,20 @@ class ProgramRun(GraphRun):
         self.calls.clear()
         return ev
 
+    def failed_simulate(self):
+        """Model.simulate on a model whose (fake) distributions cannot be sampled: the call raises; nothing may change -
+        in particular the model keeps updating automatically afterwards."""
+        import jax
+        raised = False
+        try:
+            self.model.simulate(jax.random.PRNGKey(0))
+        except Exception:  # noqa: BLE001
+            raised = True
+        self.calls.clear()
+        ev = {"ev": "failed_simulate", "raised": False, "sim_raised": raised, "auto_update_after": bool(self.model.auto_update)}
+        ev.update(self.snapshot())
+        return ev
+
     def _configure_builder(self, gb):
         for key, attr in (("lp", "log_prob_node"), ("ll", "log_lik_node"), ("lpr", "log_prior_node")):
             if self.user.get(key):
@@ -188,7 +202,7 @@ def symbolic_trace(rng):
     ops = []
     for _ in range(rng.randint(1, 4)):
         r = rng.random()
-        if vals and r < 0.25:
+        if vals and r < 0.22:
             # assignments with auto-update off, then a targeted update of one total only
             o1 = {"ev": "set_auto", "b": False}
             o2 = {"ev": "assign", "n": rng.choice(vals), "x": rng.choice("abc") + str(rng.randint(4, 6)), "via_var": rng.random() < 0.5}
@@ -198,6 +212,12 @@ def symbolic_trace(rng):
             o3, o4 = {"ev": "update_all"}, {"ev": "set_auto", "b": True}
             ops += [o3, o4]
             ev += [run.op(o3), run.op(o4)]
+        elif vals and 0.4 <= r < 0.5:
+            ops.append({"ev": "failed_simulate"})
+            ev.append(run.failed_simulate())
+            o = {"ev": "assign", "n": rng.choice(vals), "x": rng.choice("abc") + str(rng.randint(0, 3)), "via_var": False}
+            ops.append(o)
+            ev.append(run.op(o))
         elif vals and r < 0.4:
             o = {"ev": "rebuild", "n": rng.choice(vals), "x": rng.choice("abc") + str(rng.randint(7, 9))}
             ops.append(o)
@@ -407,8 +427,19 @@ def model_family(name, per_obs=True, flags="exclusive"):
         draws = {"m0": lambda r: jnp.float32(r.uniform(-1, 1)), "s0": lambda r: jnp.float32(r.uniform(0.3, 2)),
                  "g": lambda r: jnp.asarray([r.uniform(-1, 1) for _ in range(3)], jnp.float32)}
         return model, recipe, draws, {}
-    if name == "distreg":
+    if name in ("distreg", "distreg_smallscale"):
         from liesel.distributions import MultivariateNormalDegenerate as MVND
+
+        # distreg_smallscale: a penalty on a very small scale (eigenvalues below any absolute tolerance); the leaf of
+        # the coefficient prior is then a float64 closed form with the rank of the penalty matrix
+        Kp = K2 if name == "distreg" else K2 * jnp.float32(1e-7)
+        Kp64 = np.asarray(Kp, np.float64)
+        rk = int(np.linalg.matrix_rank(np.asarray(K2, np.float64)))
+        top = np.sort(np.linalg.eigvalsh(Kp64))[-rk:]
+
+        def mvnd_closed(beta, t2):
+            b64, t = np.asarray(beta, np.float64), float(t2)
+            return (-0.5 * rk * np.log(2 * np.pi) + 0.5 * (np.sum(np.log(top)) - rk * np.log(t)) - 0.5 * b64 @ Kp64 @ b64 / t)
 
         Bm = jnp.asarray(np.vander(np.linspace(-1, 1, 7), 4), jnp.float32)
         one = jnp.asarray(np.c_[np.ones(7)], jnp.float32)
@@ -417,7 +448,7 @@ def model_family(name, per_obs=True, flags="exclusive"):
         b.add_predictor("loc", tfb.Identity)
         b.add_predictor("scale", tfb.Exp)
         b.add_p_smooth(one, m=0.0, s=10.0, predictor="loc")
-        b.add_np_smooth(Bm, K2, a=2.0, b=0.5, predictor="loc")
+        b.add_np_smooth(Bm, Kp, a=2.0, b=0.5, predictor="loc")
         b.add_p_smooth(one, m=0.0, s=3.0, predictor="scale")
         for v in b.vars:
             if v.has_dist:
@@ -431,7 +462,8 @@ def model_family(name, per_obs=True, flags="exclusive"):
             return [
                 {"name": "loc_p0_beta", "v": _f(tfd.Normal(0.0, 10.0).log_prob(v["loc_p0_beta"])), "has_var": True, "observed": False, "parameter": True},
                 {"name": "loc_np0_tau2", "v": _f(tfd.InverseGamma(2.0, 0.5).log_prob(t2)), "has_var": True, "observed": False, "parameter": True},
-                {"name": "loc_np0_beta", "v": _f(MVND.from_penalty(loc=0.0, var=t2, pen=K2).log_prob(v["loc_np0_beta"])), "has_var": True, "observed": False, "parameter": True},
+                {"name": "loc_np0_beta", "v": (_f(MVND.from_penalty(loc=0.0, var=t2, pen=K2).log_prob(v["loc_np0_beta"])) if name == "distreg"
+                                               else _f(mvnd_closed(v["loc_np0_beta"], t2))), "has_var": True, "observed": False, "parameter": True},
                 {"name": "scale_p0_beta", "v": _f(tfd.Normal(0.0, 3.0).log_prob(v["scale_p0_beta"])), "has_var": True, "observed": False, "parameter": True},
                 {"name": "response", "v": _f(tfd.Normal(loc, scale).log_prob(YD)), "has_var": True, "observed": True, "parameter": False},
             ]
@@ -443,7 +475,7 @@ def model_family(name, per_obs=True, flags="exclusive"):
     raise KeyError(name)
 
 
-FAMILY = ["distreg", "auto_transformed", "linreg_flag", "linreg", "linreg_user_ll", "linreg_user_ll_pointwise", "linreg_both_flags", "linreg_noflags", "transformed", "mvn_degen", "hier_vector"]
+FAMILY = ["distreg", "distreg_smallscale", "auto_transformed", "linreg_flag", "linreg", "linreg_user_ll", "linreg_user_ll_pointwise", "linreg_both_flags", "linreg_noflags", "transformed", "mvn_degen", "hier_vector"]
 
 
 def numeric_trace(rng, name, nassign=3):
